@@ -16,7 +16,7 @@ def need_of(tokens):
 
 
 def mk(act, **kw):
-    a = {'act': act}
+    a = {'act': act, 'live': False}
     a.update(kw)
     toks = [v for v in kw.values() if isinstance(v, str)]
     for v in kw.values():
@@ -77,6 +77,9 @@ def enabled(cfg):
         if not s['nextSid'] > a['need']:
             return False
         act = a['act']
+        if a['live'] and a['sid'] not in s['rooms'].get(
+                a['ns'], {}).get('None', {}):
+            return False
         if act == 'EioOpen':
             return s['eio'][a['t']] == 'none' and (
                 a['after'] == '' or s['eio'][a['after']] != 'none')
@@ -106,3 +109,166 @@ CONFIGS['rooms_quick'] = dict(
              ('list', ['r1', 's1']), ('list', ['r1', 'r1'])],
     emit_skip=[('none', []), ('one', ['s1']), ('list', ['s1', 's2'])],
     alpha='rooms')
+
+
+# ---------------------------------------------------------------- lifecycle
+def lifecycle(cfg):
+    A = base(cfg)
+    S = [sid(i) for i in range(1, cfg['max_sid'] + 1)]
+    for ns in cfg['ns_api']:
+        A.append(mk('Emit', ns=ns, toKind='none', to=[], skipKind='none',
+                    skip=[], ev='msg', data='v1', cb=''))
+        for s in S:
+            A.append(mk('Emit', ns=ns, toKind='one', to=[s], skipKind='none',
+                        skip=[], ev='msg', data='v1', cb=''))
+            A.append(mk('Rooms', sid=s, ns=ns))
+            A.append(mk('GetEnviron', sid=s, ns=ns))
+    return A
+
+
+_LC = dict(transports=['t1', 't2'], ns_h=['/', '/a'],
+           ns_all=['/', '/a', '/b', '/x'], ns_api=['/', '/a', '/b'],
+           ns_disc=['/', '/a', '/b'], max_sid=3,
+           auths=['absent', 'auth:ok', 'auth:false', 'auth:ref0', 'auth:ref1',
+                  'auth:ref2', 'auth:ref3', 'v1'],
+           lost_reasons=['transport close', 'ping timeout'],
+           alpha='lifecycle')
+for _ac in (False, True):
+    for _hk in ('fn', 'class'):
+        for _no, _nn in (('default', 'd'), (['/', '/b'], 'l'), ('*', 's')):
+            CONFIGS['lifecycle_%s_%s_%s' % ('ac' if _ac else 'nc', _hk, _nn)] \
+                = dict(_LC, always_connect=_ac, hkind=_hk, ns_opt=_no)
+CONFIGS['lifecycle_quick'] = dict(
+    _LC, transports=['t1'], max_sid=2, ns_opt=['/', '/b'],
+    ns_all=['/', '/a', '/b', '/x'], lost_reasons=['transport close'])
+CONFIGS['lifecycle_quick_ac'] = dict(CONFIGS['lifecycle_quick'],
+                                     always_connect=True, hkind='class')
+
+
+# ------------------------------------------------------------------- events
+EVS = ['e_none', 'e_v', 'e_z', 'e_list', 'e_dict', 'e_tup0', 'e_tup1',
+       'e_tup2', 'e_bin', 'e_tbin', 'e_unh']
+
+
+def events(cfg):
+    A = base(cfg)
+    for t in cfg['transports']:
+        for ns in cfg['ns_all']:
+            for ev in cfg.get('evs', EVS):
+                for id in cfg['ids']:
+                    A.append(mk('RxEvent', t=t, ns=ns, id=id, ev=ev,
+                                args=['v1']))
+            for args in ([], ['d1', 'l1'], ['n1', 'z0', 'f1']):
+                A.append(mk('RxEvent', t=t, ns=ns, id=cfg['ids'][-1],
+                            ev='e_v', args=args))
+        for ns in cfg['ns_api']:
+            for n in (1, 2):
+                A.append(mk('RxFrame', t=t, kind='hdr', ty='BINARY_EVENT',
+                            ns=ns, id=cfg['ids'][-1], ev='e_tup2', n=n))
+        A.append(mk('RxFrame', t=t, kind='att', b='b1'))
+        A.append(mk('RxFrame', t=t, kind='att', b='b2'))
+    return A
+
+
+_EV = dict(transports=['t1', 't2'], ns_h=['/', '/a'], ns_all=['/', '/a', '/x'],
+           ns_api=['/', '/a'], max_sid=3, ids=[-1, 0, 7], alpha='events')
+for _ah in (False, True):
+    for _hk in ('fn', 'class'):
+        CONFIGS['events_%s_%s' % ('bg' if _ah else 'inl', _hk)] = dict(
+            _EV, async_handlers=_ah, hkind=_hk)
+CONFIGS['events_quick'] = dict(_EV, max_sid=2, ns_h=['/', '/a'],
+                               ns_all=['/', '/a'], ids=[-1, 7],
+                               evs=['e_none', 'e_v', 'e_tup2', 'e_bin',
+                                    'e_unh', 'e_raise'])
+CONFIGS['events_quick_bg'] = dict(CONFIGS['events_quick'],
+                                  async_handlers=True, hkind='class')
+
+
+# --------------------------------------------------------------------- acks
+def acks(cfg):
+    A = base(cfg)
+    S = [sid(i) for i in range(1, cfg['max_sid'] + 1)]
+    for ns in cfg['ns_api']:
+        for s in S:
+            for tag in ('c1', 'c2'):
+                A.append(mk('Emit', ns=ns, toKind='one', to=[s],
+                            skipKind='none', skip=[], ev='msg', data='v1',
+                            cb=tag))
+    for t in cfg['transports']:
+        for ns in cfg['ns_all']:
+            for id in cfg['ack_ids']:
+                for args in cfg.get('ack_args', ([], ['v1'], ['v1', 'v2'])):
+                    A.append(mk('RxAck', t=t, ns=ns, id=id, args=args))
+        for ns in cfg['ns_api']:
+            A.append(mk('RxFrame', t=t, kind='hdr', ty='BINARY_ACK', ns=ns,
+                        id=1, ev='', n=1))
+        A.append(mk('RxFrame', t=t, kind='att', b='b1'))
+    return A
+
+
+CONFIGS['acks'] = dict(transports=['t1', 't2'], ns_h=['/', '/a'],
+                       ns_all=['/', '/a'], ns_api=['/', '/a'], max_sid=3,
+                       max_ack=2, ack_ids=[0, 1, 2, 3, 99], alpha='acks')
+CONFIGS['acks_quick'] = dict(CONFIGS['acks'], transports=['t1', 't2'],
+                             ns_h=['/'], ns_all=['/', '/a'], ns_api=['/'],
+                             ns_opt=['/', '/a'], max_sid=2, max_ack=2,
+                             ack_ids=[0, 1, 2, 9], ack_args=[[], ['v1', 'v2']])
+
+
+# ----------------------------------------------------------------- sessions
+def sessions(cfg):
+    A = base(cfg)
+    S = [sid(i) for i in range(1, cfg['max_sid'] + 1)]
+    for ns in cfg['ns_api']:
+        for s in S:
+            # the value names its writer, so a foreign value is recognisable
+            w = 'w_%s_%s' % (s, 'root' if ns == '/' else ns.strip('/'))
+            A.append(mk('SaveSession', sid=s, ns=ns, val=w))
+            A.append(mk('SessionBlock', sid=s, ns=ns,
+                        val=w + cfg.get('block_suffix', 'b')))
+            A.append(mk('GetSession', sid=s, ns=ns))
+    return A
+
+
+CONFIGS['sessions'] = dict(transports=['t1', 't2'], ns_h=['/', '/a'],
+                           ns_all=['/', '/a'], ns_api=['/', '/a'], max_sid=4,
+                           alpha='sessions')
+CONFIGS['sessions_quick'] = dict(CONFIGS['sessions'], max_sid=3,
+                                 block_suffix='')
+
+
+# ------------------------------------------------------------------ residue
+def residue(cfg):
+    A = base(cfg)
+    plain = cfg.get('plain_transports', [])
+    # bystander transports only connect (normally), disconnect and get lost
+    A = [a for a in A if not (a.get('t') in plain and a['act'] == 'RxConnect'
+                              and a['auth'] != 'absent')]
+    S = [sid(i) for i in range(1, cfg['max_sid'] + 1)]
+    for t in cfg['transports']:
+        if t in plain:
+            continue
+        for ns in cfg['ns_all']:
+            A.append(mk('RxEvent', t=t, ns=ns, id=7, ev='e_v', args=['v1']))
+            A.append(mk('RxEvent', t=t, ns=ns, id=-1, ev='e_raise', args=[]))
+        A.append(mk('RxFrame', t=t, kind='hdr', ty='BINARY_EVENT', ns='/',
+                    id=-1, ev='e_v', n=2))
+        A.append(mk('RxFrame', t=t, kind='att', b='b1'))
+    for ns in cfg['ns_api']:
+        for s in S:
+            A.append(mk('Emit', ns=ns, toKind='one', to=[s], skipKind='none',
+                        skip=[], ev='msg', data='v1', cb='c1'))
+            A.append(mk('EnterRoom', sid=s, room='r1', ns=ns, live=True))
+            A.append(mk('SaveSession', sid=s, ns=ns, val='w1'))
+        A.append(mk('Arm', ns=ns))
+    return A
+
+
+CONFIGS['residue'] = dict(transports=['t1', 't2'], ns_h=['/', '/a'],
+                          ns_all=['/', '/a'], ns_api=['/', '/a'], max_sid=3,
+                          max_ack=1, auths=['absent', 'auth:false',
+                                            'auth:raise'],
+                          alpha='residue', dev=['D3', 'D6'])
+CONFIGS['residue'] = dict(CONFIGS['residue'], plain_transports=['t2'])
+CONFIGS['residue_quick'] = dict(CONFIGS['residue'], transports=['t1'],
+                                max_sid=2)
